@@ -12,7 +12,11 @@ nothing a visible snapshot needs is lost and nothing a running backup relies on 
 the hypothesis — by induction over step lists with the invariant `Inv` (Lemmas/Interleave.lean: I1 snapshots, I2 relied
 keys, I3 plans delete only what was marked keep-delete before, I4 own packs), every one of the nine step kinds
 preserving it (`step_preserves_Inv`).  `next_prune_recovers`: from every such state the follow-up prune makes every
-snapshot readable through a fresh index load.  The duration hypothesis is a guard of the model (`backupFinish` is only
+snapshot readable through a fresh index load — at any later time (`next_prune_recovers_however_late`), because Recover tests
+the USE of a marked pack, never the age of its mark (`needed_marked_pack_recovered_whatever_its_age`: any state, no hypothesis on
+times), and because every prune in between that keeps a pack marked keeps its mark time and its blob list
+(`kept_marked_packs_keep_their_blobs`; composition over two prunes: `backup_over_two_prunes_recovered`; on the protocol model
+with index files: `rewritten_index_listing_blobs_keeps_available`, negative witness `rewrite_dropping_blobs_loses`).  The duration hypothesis is a guard of the model (`backupFinish` is only
 enabled while `now + span < t0 + keep_delete`) and is used in exactly one lemma (`doomed_listed_absurd`, the timing
 core).  `span` bounds the time from a prune's plan — whose time its marks carry — to the moment its rebuilt index takes
 effect; `span = 0` is the property's literal hypothesis (`overlap_no_loss_literal`: holds for a prune that stamps its
@@ -206,6 +210,31 @@ theorem writes_are_monotone (r : Repo) (o : Op) (hw : o.isWrite = true) (pid : N
   · exact ⟨fun h => by rw [stored_congr (apply r (.writeSnap _)) r rfl]; exact h,
            fun h => by rw [indexed_congr (apply r (.writeSnap _)) r rfl]; exact h⟩
   · exact ⟨id, id⟩
+
+/-! ### the same on the protocol model (where index files exist; this is what the driver's monitor judges) -/
+open Rustic.Repo in
+/-- **index-file level of "kept marked packs keep their blobs"**: a prune's index rewrite = write the rebuilt index file `i`, then
+remove old index files `rm`.  If `i` lists pack `p` — unmarked or MARKED — with key `k` in its blob list and the pack file is stored,
+`k` stays available (can be brought back by the next prune) whatever index files are removed. -/
+theorem rewritten_index_listing_blobs_keeps_available (r : Repo) (i : IndexFile) (p : IdxPack) (k : Key) (rm : List Nat)
+    (hp : p ∈ i.packs ++ i.del) (hk : k ∈ p.blobs) (hs : stored r p.id k = true) (hrm : i.id ∉ rm) :
+    available (applyAll (apply r (.writeIndex i)) (rm.map .removeIndex)) k = true := by
+  have h := removeIndexes_keep rm (apply r (.writeIndex i)) i (by simp [apply]) hrm
+  simp only [available, List.any_eq_true, Bool.and_eq_true, List.contains_iff_mem]
+  refine ⟨i, h.1, p, hp, hk, ?_⟩
+  have e : stored (applyAll (apply r (.writeIndex i)) (rm.map .removeIndex)) p.id k = stored r p.id k := by
+    unfold stored; rw [h.2]; rfl
+  rw [e]; exact hs
+
+open Rustic.Repo in
+/-- … and an entry WITHOUT its blob list loses it (the shape of seeded change C10-7): pack 1 holds `k`, the old index file 7 lists it
+marked with `k`; the rebuilt index 8 lists pack 1 marked but with no blobs; once index 7 is removed `k` is not available any more. -/
+theorem rewrite_dropping_blobs_loses :
+    let k : Key := (.data, 1)
+    let r : Repo := { packs := [{ id := 1, blobs := [k] }], indexes := [{ id := 7, packs := [], del := [{ id := 1, blobs := [k] }] }] }
+    (available r k, available (applyAll r [.writeIndex { id := 8, packs := [], del := [{ id := 1, blobs := [] }] }, .removeIndex 7]) k,
+     available (applyAll r [.writeIndex { id := 8, packs := [], del := [{ id := 1, blobs := [k] }] }, .removeIndex 7]) k)
+      = (true, false, true) := by decide
 
 /-! ### witnesses -/
 
